@@ -234,7 +234,7 @@ struct visitor {
 int main(int argc, char** argv) {
     vh::init(argc, argv);
     g_org = org<ORG, led::alloc<unsigned char>>::name();
-    const int N = vh::thorough() ? 10 : 7;
+    const int N = vh::thorough() ? 12 : 7;
     static const size_t aligns[] = {0, 4, 16};
     for (long h = 0; h <= N; ++h)
         for (long w = 0; w <= N; ++w) {
@@ -247,7 +247,7 @@ int main(int argc, char** argv) {
                 view_t v = gil::view(img);
                 vh::rng r = vh::case_rng();
                 visitor vis(r, vh::thorough() ? 64 : 16);
-                int depth = (vh::thorough() && w * h <= 16) ? 2 : 1;
+                int depth = (vh::thorough() && w * h <= 36) ? 2 : 1;
                 for_each_word(v, depth, vis);
                 // default-constructed views
                 view_t dv; nav<view_t, mem_id> nd(dv, mem_id(), "default"); nd.run(r, 0);
@@ -281,7 +281,7 @@ template <class W> void vrun(W const& v, std::string const& word, vh::rng& r) { 
 int main(int argc, char** argv) {
     vh::init(argc, argv);
     g_org = "virtual";
-    const int N = vh::thorough() ? 10 : 7;
+    const int N = vh::thorough() ? 12 : 7;
     for (long h = 0; h <= N; ++h)
         for (long w = 0; w <= N; ++w) {
             if (!vh::begin_case("virtual", vh::cat(w, "x", h))) continue;
